@@ -11,7 +11,7 @@ from lib.hx import harness, pick, pickb, done, tier, PART, note, known, THOROUGH
 PROPERTY = "C12"
 LEVEL = "model_checking"
 ASSUMPTIONS = [
-    "privacy is delivered by a table (stub of System.privacyClass); how rules produce it is C13",
+    "privacy is delivered by a table turned into one exact-name --privacy rule per object; pattern rules and precedence are C13",
     "the project is the fixed mini model of lib/minimodel.py (package, 2 modules, 3 classes incl. a subclass overriding a method, "
     "function with annotations and cross-references to the other module, variables)",
     "K12b runs CrossHair with file-system events unblocked; it writes only below its own mkdtemp directory",
@@ -38,10 +38,10 @@ def check_api(table):
         if o.isVisible != (not hid[n]):
             note(why="isVisible differs from 'no hidden ancestor-or-self'", name=n, table={k: v.name for k, v in table.items()})
             return False
-        if o.isPrivate != (table.get(n, PU) is not PU):
+        if o.isPrivate != (M.privacy_of(table, n) is not PU):
             note(why="isPrivate", name=n)
             return False
-        want_private = table.get(n, PU) is PV
+        want_private = M.privacy_of(table, n) is PV
         try:
             css = tutil.css_class(o)
         except AttributeError:
@@ -108,7 +108,7 @@ NAPI = tier(6, 8)
           "pydoctor.templatewriter.summary.findRootClasses", "pydoctor.linker.taglink"],
     bounds={"quick": "every HIDDEN/PRIVATE/PUBLIC assignment to 6 objects of the mini model (module a, class C, C.m, C.v, subclass D, D.m): 729 tables",
             "thorough": "8 objects (adds module b and b.f): 6561 tables"},
-    stubs=["System.privacyClass replaced by a table lookup"],
+    stubs=["privacy delivered as one exact-name --privacy rule per object (real rule machinery)"],
     outside="projects other than the mini model; privacy produced by real rules (C13)",
 )
 def h_visibility_api(p2: int, p3: int, p4: int, p5: int, p6: int, p7: int) -> bool:
@@ -138,7 +138,7 @@ def check_rendered(table, theme):
     try:
         objs = {n: s.allobjects[n] for n in M.OBJECTS}
         hidden = [o for n, o in objs.items() if M.hidden_star(table, n)]
-        private = [o for n, o in objs.items() if not M.hidden_star(table, n) and table.get(n, PU) is PV]
+        private = [o for n, o in objs.items() if not M.hidden_star(table, n) and M.privacy_of(table, n) is PV]
         probs = crawl.hidden_traces(out, s, hidden)
         if probs:
             kinds = {p[0] for p in probs}
@@ -171,7 +171,7 @@ UNBLOCK = ["open", "os.mkdir", "os.symlink", "os.remove", "os.rmdir", "shutil.rm
           "search.*", "pydoctor.sphinx.SphinxInventoryWriter", "pydoctor.linker.taglink/_EpydocLinker", "pydoctor.model.Documentable.isVisible/url"],
     bounds={"quick": "mini model rendered with the classic theme under every HIDDEN/PRIVATE/PUBLIC assignment to 6 objects (729 renders)",
             "thorough": "8 objects x 3 themes (19 683 renders)"},
-    stubs=["System.privacyClass replaced by a table lookup"],
+    stubs=["privacy delivered as one exact-name --privacy rule per object (real rule machinery)"],
     outside="JavaScript-built search results; projects other than the mini model (C11 varies the project)",
 )
 def h_hidden_rendered(p2: int, p3: int, p4: int, p5: int, p6: int, p7: int) -> bool:
